@@ -190,6 +190,10 @@ class scrypt(KDFAdapter):
 
 class blake2b(KDFAdapter, MACAdapter, HashAdapter):
     def __init__(self, *, length=64):
+        if not isinstance(length, int) or not (
+            1 <= length <= hashlib.blake2b.MAX_DIGEST_SIZE
+        ):
+            raise ValueError('Invalid digest size')
         self.digest_size = length
 
     def generate_derivation_params(self):
@@ -253,6 +257,10 @@ class gclmulchunker(ChunkerAdapter):
     alignment = 4
 
     def __init__(self, *, min_length=MIN_LENGTH, max_length=MAX_LENGTH):
+        for length in (min_length, max_length):
+            if not isinstance(length, int) or isinstance(length, bool) or length < 1:
+                raise ValueError(f'Chunk lengths must be positive integers ({length!r})')
+
         if min_length > max_length:
             raise ValueError(
                 f'Minimum length ({min_length}) is greater '
